@@ -66,6 +66,9 @@ def run(chk, tier):
     for cfg in configs(tier, thorough=('std', 'mocks', 'nostd-spin', 'nostd')):
         F = load(chk, cfg)
         callpath = F.reachable_fns([F.fn('private::eval')])
+        from props import evalcore as E10
+        efn, epaths, erows = E10.eval_dyn_table(chk, F, 'R10.6.table', cfg)
+        E10.counting_discipline(chk, F, 'R10.6', cfg, efn, erows)
         ops = atomic_ops(F)
         rmw_per_field = {}
         for fn, bb, op, names, ordering, delta, e in ops:
